@@ -236,7 +236,7 @@ fn case_fn(case: &mut Case) -> CaseResult {
         } else {
             schema_texts.iter().enumerate().map(|(i, t)| (format!("s{i}.graphqls"), t.clone())).collect()
         };
-        let (a, b, _) = cli_generate_after_earlier_run(&files, &op_text, &scfg, &other_schema_gen_config(&scfg), &detail0)?;
+        let (a, b, _) = cli_generate_after_earlier_run(&files, &op_text, &scfg, &other_schema_gen_config(&scfg), false, &detail0)?;
         schema_dts = a;
         op_dts = b;
     }
